@@ -189,5 +189,18 @@ PROPS["C15"] = dict(
     assumptions=["files that CheckDir/CreateFromDir omit by design (vendor, VCS, submodules) are compared only in the direction 'never valid in one and invalid in the other'"],
 )
 
+PROPS["C18"] = dict(
+    pkg="c18",
+    schedule_dependent=True,
+    subs=[
+        dict(name="flow", test="TestFlow", quick=1500, thorough=60000, shards=16, shrinktime="60s"),
+    ],
+    technique="rapid-generated task DAGs with a harness-owned schedule (every Runner blocks on its own gate; a generated sequence decides which running task is released next, singly or in bursts); invariants over the recorded history plus a final-state model",
+    level_text="exploration: DAGs of 2-10 tasks with direct, through-field, nested-field and computed dependencies, tasks that only appear after an earlier task filled a value, optional injected failure or dependency cycle; the release order is a generated value, so every completion order the generator draws is actually executed.",
+    level_note="trusted: the harness gates (channel close) and its mutex-protected history; a 2 ms settle window decides which tasks count as running at the same time (affects only which schedules are explored); Run not returning within 60 s after all gates are open is reported as a deadlock",
+    rule="case = DAG + release sequence (+ failure | cycle). Checked: each task started at most once; at its start every ancestor had completed successfully and its view of 'in' is the concrete sum its dependencies filled; without failure every task ran once and the final configuration holds every out = model value; with a failure Run errors and no descendant of the failed task started; a cycle is reported as an error. Non-trivial = DAG has a task with two dependencies or an indirect dependency and at least two tasks were running at the same time.",
+    assumptions=["tools/flow documents Task.Value as callable inside Run; the harness reads it there"],
+)
+
 NOT_APPLICABLE = {}
 HOOK_COMMITS = []
